@@ -322,7 +322,9 @@ func headOf(b []byte, n int) string {
 func runForwarder(url string, h handlerScript, id string, gate func(k int)) (closeOK bool, blocked bool, werr error) {
 	tr := &http.Transport{}
 	defer tr.CloseIdleConnections()
-	client := &http.Client{Transport: tr, Timeout: 30 * time.Second}
+	// (the client time-out plays the part of the agent's --proxy-timeout: it covers the whole upload, so it has to
+	// be longer than the handler's quiet periods)
+	client := &http.Client{Transport: tr, Timeout: 30*time.Second + time.Duration(len(h.Pieces))*h.Pause}
 	req, _ := http.NewRequest("GET", "http://backend.example/x", nil)
 	rw, err := utils.NewResponseForwarder(client, url, "backend", id, req, nil)
 	if err != nil {
